@@ -62,6 +62,11 @@ def len {α} (xs : List α) : Int := xs.length
 def idx {α} (xs : List α) (i : Int) : G α :=
   if i < 0 then throw .panic else match xs[i.toNat]? with | some a => pure a | none => throw .panic
 
+/-- `xs[lo:hi]` of a string (ASCII contents: the translated code slices only digit strings) or a slice: run-time panic
+unless `0 ≤ lo ≤ hi ≤ len`. -/
+def slice {α} (xs : List α) (lo hi : Int) : G (List α) :=
+  if 0 ≤ lo ∧ lo ≤ hi ∧ hi ≤ xs.length then pure ((xs.drop lo.toNat).take (hi - lo).toNat) else throw .panic
+
 class GToInt (α : Type) where toInt : α → Int
 instance : GToInt Int := ⟨id⟩
 def toInt {α} [GToInt α] (a : α) : Int := GToInt.toInt a
